@@ -230,15 +230,20 @@ def c13(ctx):
 
 def replay_c13(ctx, data):
     d = data['data']
+    print(json.dumps(d, indent=1)[:1500])
     if 'case' in d:
-        case = d['case']
+        _, side, args = d['case'].split('\t')
+    elif 'side' in d:
+        side = d['side']
+        left, inc, mtg = d.get('mover_left', d.get('left')), d.get('mover_inc', d.get('inc')), d.get('movestogo')
+        o = d.get('other_side_params_b') or [77777, 0]
+        args = ('wtime %d btime %d winc %d binc %d movestogo %d' % ((left, o[0], inc, o[1], mtg) if side == 'w' else (o[0], left, o[1], inc, mtg)))
     else:
         return True
-    open(RUN + '/r.cases', 'w').write(case + '\n')
-    # run the single go command through the harness is not supported as a one-off; use the model and the binary
-    model = run_oracle([case])[0]
-    print('model:', model)
-    return True
+    rc, out, err, _ = harness(['time1', side] + args.split())
+    model = run_oracle(['TIME\t%s\t%s' % (side, args)])[0]
+    print('go %s (side %s): engine %s | model %s' % (args, side, out.strip(), model))
+    return out.strip() != model
 
 
 REPLAYS['C13'] = replay_c13
@@ -1645,3 +1650,41 @@ def succ_detail(fen, move):
     impl = out.strip().split('\n')[0] if out.strip() else ''
     model = run_oracle(['GAME\t%s\t%s' % (fen, move)])[0]
     return impl.split('|')[-1][:400], model.split('|')[-1][:400]
+
+
+
+# ---------------------------------------------------------------- generic replays
+
+def replay_generic(ctx, data):
+    d = data['data']
+    print(json.dumps(d, indent=1)[:3000])
+    kind = data.get('kind', '')
+    if 'search_thread_held_at' in d:          # a schedule (C11 / C12)
+        m = re.match(r'(\w[\w-]*)(?:\(d=(\d+),k=(\d+)\)|\((\d+)\))?', d['search_thread_held_at'])
+        name = m.group(1)
+        point = {'entered': 1, 'rootmove': 2, 'iteration-done': 3, 'before-bestmove': 4, 'after-bestmove': 5, 'inside-rootmove': 6}[name]
+        a = int(m.group(2) or m.group(4) or 0)
+        b = int(m.group(3) or 0)
+        rc, out, err, _ = harness(['sched1', d['fen'], d['go'], str(point), str(a), str(b), str(d.get('hold_ms', 0))] + list(d.get('commands_issued_there', [])))
+        print(out[:3000])
+        return True
+    if 'script' in d and isinstance(d['script'], list) and ctx.pid == 'C17':
+        script = d['script']
+        model = [strip_log(x) for x in run_oracle(['SESS\t' + '\n'.join(script).encode('latin-1', 'replace').hex()])[0].split(';')]
+        res, problem = L.run_script(script, model)
+        print('engine:', res, '\nmodel :', model, '\nproblem:', problem)
+        return problem is not None or res != model[:len(res)]
+    if 'fen_hex' in d:                         # C08
+        rc, out, err, _ = harness(['fen1', d['fen_hex']])
+        model = run_oracle(['FEN\t' + d['fen_hex']])[0]
+        print('engine:', out.strip()[:300], '\nmodel :', model[:300])
+        return out.strip().split('|')[0][:3] != canon_model(model).split('|')[0][:3] or (out.strip().startswith('OK') and out.strip() != model)
+    if 'fen' in d and 'go' in d:
+        j = S.run_jobs([S.Job(d['fen'], d['go'], stop_after=d.get('stop_after_s'))], per_job_timeout=60)[0]
+        print('\n'.join((j.lines or [])[-12:]), '\ndied:', j.died, 'timeout:', j.timeout, j.stderr[-400:])
+        return j.died or j.timeout
+    return True
+
+
+for _p in ('C07', 'C08', 'C11', 'C12', 'C16', 'C17', 'C18', 'C19'):
+    REPLAYS.setdefault(_p, replay_generic)
